@@ -491,6 +491,19 @@ impl GeographicDiversityEnforcer {
     }
 }
 
+/// IP address of a routing-table entry.
+///
+/// `address` is "ip:port" or "ip", optionally followed by the " (four-words)"
+/// suffix that `NetworkAddress`'s `Display` appends.
+fn node_ip(address: &str) -> Option<IpAddr> {
+    let clean = address.split(" (").next().unwrap_or(address);
+    if let Ok(socket) = clean.parse::<SocketAddr>() {
+        Some(socket.ip())
+    } else {
+        clean.parse::<IpAddr>().ok()
+    }
+}
+
 /// DHT query timeout duration
 const DHT_QUERY_TIMEOUT: Duration = Duration::from_secs(5);
 
@@ -1367,11 +1380,7 @@ impl DhtCoreEngine {
         {
             // Parse IP address from node.address string
             // address comes as "ip:port" or just "ip"
-            let ip_addr: Option<IpAddr> = if let Ok(socket) = node.address.parse::<SocketAddr>() {
-                Some(socket.ip())
-            } else {
-                node.address.parse::<IpAddr>().ok()
-            };
+            let ip_addr: Option<IpAddr> = node_ip(&node.address);
 
             if let Some(ip) = ip_addr {
                 let mut enforcer = self.ip_diversity_enforcer.write().await;
@@ -1403,11 +1412,7 @@ impl DhtCoreEngine {
         // 3. Security Check: Geographic Diversity
         {
             // Parse IP address from node.address string (reuse parsed IP from above)
-            let ip_addr: Option<IpAddr> = if let Ok(socket) = node.address.parse::<SocketAddr>() {
-                Some(socket.ip())
-            } else {
-                node.address.parse::<IpAddr>().ok()
-            };
+            let ip_addr: Option<IpAddr> = node_ip(&node.address);
 
             if let Some(ip) = ip_addr {
                 let region = GeographicRegion::from_ip(ip);
